@@ -230,11 +230,12 @@ Definition k_step : list N := s2l "STEP".
 (* ---- refresh_sss in explicit form ------------------------------------------------------------ *)
 Section Refresh.
 Variable fmtv : list N -> list N -> list N.
-Variable fmt_diff : list N -> list N -> list N.
+Variable fmt_diff : list N -> list N -> list N -> list N.
 Variable numeq : list N -> list N -> bool.
+Variable ff : list N.            (* the format of the index column: column_fmt[0] or fmt *)
 
-Notation refresh := (refresh_sss fmtv fmt_diff numeq).
-Notation fic := (fmt_index_cell fmtv).
+Notation refresh := (refresh_sss fmtv fmt_diff numeq ff).
+Notation fic := (fmt_index_cell fmtv ff).
 
 (* the decision `index_changed or stop_is_different` (None: IndexError / AttributeError) *)
 Definition need_of (m : mlas) : option bool :=
@@ -268,7 +269,7 @@ Definition step_of (index : list cell) : hval :=
   match index with
   | CNum a :: CNum b :: _ =>
       if match strt_of index, stop_of index with VStr x, VStr y => str_eqb x y | _, _ => true end then VNone
-      else VStr (fmt_diff b a)
+      else VStr (fmt_diff ff b a)
   | _ => VNone
   end.
 
@@ -309,7 +310,7 @@ Definition refresh_body (m : mlas) (need : bool) : option las :=
         match index with
         | CNum a :: CNum b :: _ =>
             if match strt, stop with VStr x, VStr y => str_eqb x y | _, _ => true end then VNone
-            else VStr (fmt_diff b a)
+            else VStr (fmt_diff ff b a)
         | _ => VNone
         end in
       bind (update_first trw (s2l "STRT") (fun it => set_value it strt) w) (fun w1 =>
